@@ -17,7 +17,7 @@ from rv.readers.reader import read_sunvox_file
 
 PROPERTY = "C18"
 LEVEL = "fault_enumeration"
-BUDGET_S = {"quick": 60, "thorough": 900}
+BUDGET_S = {"quick": 60, "thorough": 3600}
 EXHAUSTIVE = {"quick": False, "thorough": False}  # set per run in evidence via probes; see RULE
 RULE = (
     "one evaluation = one history of 1-12 ops (loads under a fault plan, strictness probes); the sweep part "
